@@ -25,6 +25,8 @@ func main() {
 	keep := fs.String("keep", "/verif/replays", "dir for failing traces")
 	par := fs.Int("par", 8, "parallel histories")
 	out := fs.String("out", "-", "result json")
+	readers := fs.Int("readers", 0, "concurrent read-only query goroutines (C25)")
+	raceBin := fs.String("racebin", "", "race-detector build of this harness (C25)")
 	fs.Parse(os.Args[2:])
 	switch mode {
 	case "trace":
@@ -57,9 +59,20 @@ func main() {
 		if err != nil {
 			panic(err)
 		}
+		var rd *Readers
+		if *readers > 0 {
+			rd = StartReaders(h, *readers, *seed)
+		}
 		h.Run()
+		if rd != nil {
+			rd.Stop()
+			fmt.Printf("READERS calls=%d panics=%d %v\n", rd.Calls, len(rd.Panics), rd.Panics)
+		}
 		sink.Close()
 		h.N.Destroy()
+	case "concurrent":
+		self, _ := os.Executable()
+		writeJSON(*out, Concurrent(*profile, *seed, *n, *tier, *keep, self, *raceBin, *readers))
 	case "restart":
 		writeJSON(*out, RestartTwins(*profile, *seed, *n, *tier, *keep))
 	case "determinism":
